@@ -7,6 +7,7 @@ writes evidence_ext/EXT.json.  (Extensions that fall under a listed property's s
 Graph.tla in C11, Binned.tla in C10.)
 
   Signature.tla   mutation types of single-base substitutions in their sequence context (variants/mutation_signature.py)
+  Matrix.tla      numeric matrices as delimited text: parse_matrix and matrix_to_csv (io/matrix_dump.py)
   Annotation.tla  gene / transcript / exon tables and their ids from GTF and GFF3 attribute text (datatypes/gtf.py)
 """
 import os
@@ -95,6 +96,32 @@ def check_annotation(v):
     return {"n": n, "nt": [json.dumps(["ann", entries])] if len(entries) > 1 else [], "bad": bad}
 
 
+def check_matrix(v):
+    """One state of spec/Matrix.tla: its text parsed, and the matrix written as csv."""
+    import bionumpy as bnp
+    from bionumpy.io.matrix_dump import parse_matrix, matrix_to_csv
+    txt = lambda b: "".join(chr(c) for c in b)
+    data, rows, cols, sep = v["data"], [txt(r) for r in v["rows"]], [txt(c) for c in v["cols"]], chr(v["sep"])
+    bad, n = [], 0
+
+    def parsed():
+        m = parse_matrix(txt(v["text"]), field_type=int, rowname_type=str if rows else None, sep=sep)
+        return {"data": [[int(x) for x in r] for r in np.asarray(m.data).tolist()], "cols": [str(c) for c in m.col_names.tolist()],
+                "rows": [str(r) for r in m.row_names.tolist()] if m.row_names is not None else []}
+    o = outcome(parsed)
+    n += 1
+    want = {"data": data, "cols": cols, "rows": rows}
+    if o != ("ok", want):
+        bad.append({"what": "parse_matrix differs from the cells of the text", "tags": {"spec": "Matrix", "op": "parse_matrix", "row_names": bool(rows)},
+                    "vector": v, "expected": want, "observed": o})
+    o = outcome(lambda: bnp.as_encoded_array(matrix_to_csv(np.array(data, dtype=int), header=cols, sep=sep)).to_string())
+    n += 1
+    if o != ("ok", txt(v["csv"])):
+        bad.append({"what": "matrix_to_csv differs from header and rows joined by the separator", "tags": {"spec": "Matrix", "op": "matrix_to_csv", "row_names": bool(rows)},
+                    "vector": v, "expected": txt(v["csv"]), "observed": o})
+    return {"n": n, "nt": [json.dumps(["matrix", data, rows, cols])] if len(data) > 1 or len(cols) > 1 else [], "bad": bad}
+
+
 def run(ctx):
     quick = ctx.tier == "quick"
     first = None
@@ -115,8 +142,14 @@ def run(ctx):
         v["_dir"] = ctx.work
     ctx.sample({k: res.vectors[9][k] for k in ("entries", "genes")})
     ctx.absorb(core.pmap(check_annotation, res.vectors, chunk=40))
+    for sepc in (9, 44):
+        res = ctx.tlc("MC_Matrix", tag="MC_Matrix_%d" % sepc, spec="Spec", workers=4,
+                      constants={"MaxRows": 2, "MaxCols": 2, "Values": "<- Vals2" if quick else "<- Vals", "Names": "<- NameSet2" if quick else "<- NameSet", "Sep": sepc},
+                      invariants=["RoundTrip", "CsvRoundTrip", "Emit"])
+        ctx.absorb(core.pmap(check_matrix, res.vectors, chunk=100))
     ctx.exhaustive = True
     return ctx.finish(RULE, assumptions=[
+        "Matrix: integer matrices; names without the separator; every line ends in LF",
         "Annotation: entries carry the ids their feature type requires (well-formed GTF/GFF3); values with a space only in GTF (quoted)",
         "not evidence for any listed property: specification growth (DESIGN.md section 18)",
         "Signature: substitutions at interior positions (a full context exists), listed in genome order; contexts holding N are not counted",
@@ -126,7 +159,9 @@ def run(ctx):
 def replay(d):
     print("replay of EXT case:", d.get("what"), d.get("tags"))
     v = (d.get("vectors") or [d.get("vector")])[0]
-    if d["tags"].get("spec") == "Annotation":
+    if d["tags"].get("spec") == "Matrix":
+        r = check_matrix(v)
+    elif d["tags"].get("spec") == "Annotation":
         w = os.path.join(core.VERIF, ".work", "replay")
         os.makedirs(w, exist_ok=True)
         r = check_annotation(dict(v, _id=0, _dir=w))
